@@ -237,7 +237,7 @@ POTENTIALS = ["MergedImageCoulombPotential", "InversePowerCoulombBoundingPotenti
               "LennardJonesPotential", "DisplacedEvenPowerPotential", "BendingPotential", "HardSpherePotential",
               "HardDipolePotential", "CellBoundingPotential"]
 ESTIMATORS = ["InnerPointEstimator", "DipoleInnerPointEstimator", "BoundaryPointEstimator", "DipoleMonteCarloEstimator"]
-GRID = {"3, 5, 7": "1, 5, 1", "6, 6, 6": "6, 1, 1", "13, 13": "5, 5", "13": "5", "6": "6, 1, 1"}
+GRID = {"3, 5, 7": "1, 5, 1", "6, 6, 6": "6, 1, 1", "13, 13": "2, 2", "13": "2", "6": "6, 1, 1"}
 
 
 def adapt(path, scratch, roots=None):
@@ -440,6 +440,12 @@ def explore_config(task):
     info = {"config": path, "K": K, "replay": "run"}
     os.makedirs(scratch, exist_ok=True)
     stats = {"commits": 0, "handlers": set()}
+    run = make_config_run(path, K, scratch, want_props, roots, stats)
+    return _explore(run, task, tag, info, stats, start, frontier_depth)
+
+
+def make_config_run(path, K, scratch, want_props, roots, stats):
+    os.makedirs(scratch, exist_ok=True)
 
     def run(ex):
         cwd = os.getcwd()
@@ -492,6 +498,13 @@ def explore_config(task):
             setting.reset()
             os.chdir(cwd)
 
+    return run
+
+
+def _explore(run, task, tag, info, stats, start, frontier_depth):
+    path = task[0]
+    queries = []
+    npaths = 0
     preimport()
     ex = symx.Explorer(max_paths=200000, feas_timeout_ms=20000)
     t0 = time.time()
@@ -500,6 +513,8 @@ def explore_config(task):
     for kind, path_obj in gen:
         if kind == "prefix":
             prefixes.append(path_obj)
+            if len(prefixes) > 400:
+                return {"paths": 0, "queries": [], "prefixes": None, "task": task, "too_many_prefixes": True}
             continue
         npaths += 1
         p = path_obj
@@ -509,7 +524,7 @@ def explore_config(task):
             queries.append(solve.Query("%s/p%d/no-exception(%s: %s)" % (tag, npaths, type(p.exception).__name__,
                                                                         str(p.exception)[:80]),
                                        solve.to_smt2(p.hyp()), expect="unsat", timeout_s=60,
-                                       info=dict(info, exception=repr(p.exception), tb=tb[-600:]),
+                                       info=dict(info, exception=repr(p.exception), tb=tb[-600:], choices=list(p.choices)),
                                        group="run/no-exception"))
             continue
         by_prop = {}
@@ -524,12 +539,13 @@ def explore_config(task):
             failing = [name for (name, cond, inf, axioms, pc) in obls if z3.is_false(z3.simplify(cond))]
             q = solve.Query("%s/p%d/%s%s" % (tag, npaths, prop, ("(" + ",".join(failing[:3]) + ")") if failing else ""),
                             solve.to_smt2([z3.Not(z3.And(*conds))]), expect="unsat", timeout_s=120,
-                            info=dict(info, prop=prop, names=[o[0] for o in obls][:40], trace=str(p.result)[:600]),
+                            info=dict(info, prop=prop, names=[o[0] for o in obls][:200], trace=str(p.result)[:600],
+                                      choices=list(p.choices)),
                             group="run/" + prop)
             queries.append(q)
     return {"paths": npaths, "queries": queries, "part": "runs/" + path, "explore_s": time.time() - t0,
             "prefixes": prefixes, "task": task, "commits": stats["commits"], "handlers": sorted(stats["handlers"]),
-            "inconclusive": (["%s: %d unknown feasibility answers" % (tag, ex.n_unknown)] if ex.n_unknown else [])}
+            "undecided_feasibility": ex.n_unknown}
 
 
 # ------------------------------------------------------------------------------------------------ monitors
